@@ -104,14 +104,14 @@ func (t *FnTrans) binop(op token.Token, a, b Val) Val {
 	if isString(ty) {
 		switch op {
 		case token.ADD:
-			f := t.declareFun("str.concat", []string{"Str", "Str"}, "Str")
+			f := t.declareFun("gstr.concat", []string{"Str", "Str"}, "Str")
 			r := sx(f, a.S, b.S)
 			// length fact, as an assumption on this very term
 			ln := t.strLen()
 			t.assume("true", eq(sx(ln, r), t.addIdx(sx(ln, a.S), sx(ln, b.S))), "len(a+b) == len(a)+len(b)")
 			return scalar(ty, r)
 		case token.LSS, token.LEQ, token.GTR, token.GEQ:
-			f := t.declareFun("str.lt", []string{"Str", "Str"}, "Bool")
+			f := t.declareFun("gstr.lt", []string{"Str", "Str"}, "Bool")
 			// str.lt is a strict total order: ground instances for this pair
 			key := a.S + "|" + b.S
 			if !t.strPairs[key] {
